@@ -370,8 +370,17 @@ func (e *kengine) derive(s *kstate, v ssa.Value, depth int) kfact {
 					}
 					break
 				}
+				if ex, isEx := src.(*ssa.Extract); isEx && ex.Index == 0 {
+					// first result of a helper that only makes the reflect Call (safeCall)
+					if wc, isCall := ex.Tuple.(*ssa.Call); isCall && reflectCallWrapper(e.p, wc.Common().StaticCallee()) {
+						src = wc
+					}
+				}
 				if c, ok := src.(*ssa.Call); ok && c.Common().StaticCallee() != nil {
 					n := e.p.extName(c.Common().StaticCallee())
+					if reflectCallWrapper(e.p, c.Common().StaticCallee()) {
+						n = "(reflect.Value).Call"
+					}
 					if n == "(reflect.Value).Call" || n == "(reflect.Value).MapKeys" {
 						r := sub(c.Common().Args[0])
 						f.ci = r.ci
@@ -1062,6 +1071,10 @@ func ruleReflectTypestate(p *Prog, a *Anchors, r *Report, rule string, only func
 				fct := e.get(st, recv)
 				if !known {
 					r.Unk(key, pos, "reflect.Value.%s has no precondition entry in the checker's table", m)
+					continue
+				}
+				if m == "Call" && reflectCallWrapper(p, f) && recoversIntoError(f) {
+					r.OK(key, pos, "made under a deferred recover that returns the panic as an error: neither the called code nor reflect's own argument checks can take the process down")
 					continue
 				}
 				if why, ok := assumedSafe[fname+"|"+m]; ok && (fct.kinds&^pre != 0 || m == "Call" || m == "MapIndex") {
